@@ -14,7 +14,7 @@ RULE = ("writer runs: 1..300 records (mostly 1..20), names of 1-5 non-blank prin
         "integers, log-uniform magnitudes, both signs) and, in K only, values too wide for the field; decimals 1..6 or the "
         "default format, velocities on/off, box default / 3-vector / diagonal 3x3 / triclinic (single off-diagonal entry "
         "of either sign in each slot, mixed-sign subsets, exactly cancelling pairs and triples, all-negative, tiny entries "
-        "around 5e-6 of both signs, zeros and negative zeros in some slots, dense), title default / random printable / with trailing newline / empty / a bare newline, count declared or not; a "
+        "around 5e-6 of both signs, zeros and negative zeros in some slots, dense), title default / random printable / with trailing newline / empty / a bare newline, records handed over by writeline, by one writelines, or (half of the cases) by a random mix of writeline runs and writelines chunks incl. empty and final ones, count declared or not; a "
         "malformed writer stream (velocity mismatch between records, wrong declared count). A case is non-trivial when "
         "distinct.")
 
@@ -194,6 +194,9 @@ def report(ctx, bad, conf, recs, extra=None):
     ctx.violation(what, rep, key="roundtrip")
 
 
+MIXED_RECS = [(1 + (i >= 2) + (i >= 5), ["BMIM", "BF4", "SOL"][(i >= 2) + (i >= 5)], "A%d" % i, i + 1,
+               0.1 * (i + 1), -0.2 * (i + 1), 2.5 + i) for i in range(9)]
+
 CORPUS = [
     # D4: five-digit wrap (99999 was written as 0, 100000 as 2)
     ({"title": "wrap", "natoms": None, "fmt": None, "box": ("vec", [1.0, 2.0, 3.0])},
@@ -215,6 +218,16 @@ CORPUS = [
     ({"title": "monoclinic, beta > 90", "natoms": None, "fmt": None,
       "box": ("mat", [[4.0, 0.0, 0.0], [0.0, 3.5, 0.0], [-0.77646, 0.0, 2.89778]])},
      [(1, "SOL", "OW", 1, 0.1, 0.2, 0.3)]),
+    # a file written in several calls (seeded C13-7: writelines SET the atom counter): one writelines per residue
+    # with the count filled on close / declared, and writeline followed by writelines
+    ({"title": "one writelines per residue", "natoms": None, "fmt": None, "calls": [["lines", 2], ["lines", 3], ["lines", 4]],
+      "box": ("mat", [[3.0, 0.0, 0.0], [0.5, 3.0, 0.0], [0.25, -0.5, 3.0]])}, MIXED_RECS),
+    ({"title": "one writelines per residue, declared", "natoms": 9, "fmt": None, "calls": [["lines", 2], ["lines", 3], ["lines", 4]],
+      "box": ("mat", [[3.0, 0.0, 0.0], [0.5, 3.0, 0.0], [0.25, -0.5, 3.0]])}, MIXED_RECS),
+    ({"title": "writeline then writelines", "natoms": None, "fmt": None, "calls": [["line", 1], ["lines", 8]],
+      "box": ("vec", [3.0, 3.0, 3.0])}, MIXED_RECS),
+    ({"title": "empty writelines calls", "natoms": None, "fmt": (9, 4), "calls": [["lines", 0], ["line", 4], ["lines", 0], ["lines", 5], ["lines", 0]],
+      "box": ("default",)}, MIXED_RECS),
     # titles with multi-byte characters (seeded C13-5: placeholder located by character count), count declared or not
     ({"title": "BMIM BF4, cutoff 12 \u00c5, 25 \u00b0C", "natoms": None, "fmt": None, "box": ("vec", [3.0, 4.0, 5.0])},
      [(1, "BMIM", "N1", 1, 1.593, 1.896, 0.729), (1, "BMIM", "C2", 2, 1.706, 1.984, 0.708),
